@@ -339,7 +339,7 @@ def gen_case(rng, tier):
             inp.append({"typ": 3, "key": k, "value": "v%d" % (i + 1)})
         else:
             inp.append({"typ": 1, "key": k})
-    n = rng.randint(120, 420) if tier == "quick" else rng.randint(150, 900)
+    n = rng.randint(120, 320) if tier == "quick" else rng.randint(150, 900)
     case = {"nr": nr, "nc": nc, "ef": ef, "input": inp,
             "walk": {"seed": rng.randrange(1, 2 ** 31), "n": n, "pcrash": rng.choice([0.0, 0.01, 0.03]),
                      "pcrashp": rng.choice([0.05, 0.15, 0.3]), "pwrong": 0.1}}
@@ -461,7 +461,7 @@ def run(ctx):
         cases = [rp["case"]]
     else:
         cases = corpus()
-        n = 40 if ctx.tier == "quick" else 600
+        n = 24 if ctx.tier == "quick" else 400
         for i in range(n):
             cases.append(gen_case(rng, ctx.tier))
     for i, c in enumerate(cases):
@@ -546,11 +546,13 @@ MANIFEST = {
     "text": ("Theorems in coq/Properties/C14.v, closed under the global context. PROVED OUTRIGHT: consistency_ok - the spec's ConsistencyOK, verbatim, in every "
              "state of every execution of the typed model: any number of replicas, clients, keys, every interleaving and either/CHOOSE resolution, every sequence of "
              "crash-stops at label boundaries (3850-line inductive invariant: version/content agreement, prefix knowledge in replica order, counting of failover-sync "
-             "tokens incl. stale ones, replication phase with dead backups); consistency_ok_failure_free (independent proof); lin_checker_complete. "
+             "tokens incl. stale ones, replication phase with dead backups); consistency_ok_failure_free (independent proof); "
+             "pb_linearizable_failure_free_partial (failure-free executions, any N: linearizable, via a linearizing-monitor simulation); "
+             "assertion_free_failure_free_partial (failure-free executions, any N: no enabled step fails an assertion or a TLA+ evaluation); lin_checker_complete. "
              "REFUTED (witness by vm_compute, replayed on the real Go code on every run, known findings): assertion_free_refuted (4 replicas: stale SYNC_RESP after a "
              "restarted failover sync fails the assertion of rcvSyncRespLoop) and pb_linearizable_refuted (a Put re-sent after the primary crashed is applied twice). "
              "Full statements kept as Definitions: consistency_ok_statement (= the proved theorem), assertion_free_statement, pb_linearizable_statement. "
-             "No positive partial theorem for assertion freedom / linearizability yet."),
+             "Not proved: linearizability of crash executions without retry; assertion-freedom of crash executions with at most 3 replicas."),
     "level_note": ("Trusted: Coq kernel; the hand-written model, tied by running the REAL pbkvs.AReplica/AClient archetypes step by step under the real Run loop "
                    "(harness/steplib gate FairnessCounter) and comparing the full spec state with the model's after every attempt; the spec-state resources that "
                    "replace the deployment resources (mailboxes, FD, file system, leader election stub)."),
